@@ -152,12 +152,13 @@ func (c *Cache) srcFS(p string) (srcFS filesystem.Filespace, src string) {
 
 // Copy duplicate a file or directory
 func (c *Cache) Copy(src, dest string) error {
-	var srcFS filesystem.Filespace
-	srcFS, src = c.srcFS(src)
+	src = varutil.CleanPath(src)
 	dest = varutil.CleanPath(dest)
 	c.changeWrite(dest, true)
+	// the source is read through the cache itself: a directory may live partly in the buffer and
+	// partly on the remote, and nodes with a pending remove must not be copied
 	return (fshelper.Copier{
-		SrcFS:    srcFS,
+		SrcFS:    fshelper.NewReadonlyFS(c),
 		SrcPath:  src,
 		DestFS:   c.bufferFS,
 		DestPath: dest,
